@@ -113,12 +113,20 @@ impl<'a> Lexer<'a> {
             }
         }
 
+        // `0b` / `0x` only start a binary / hexadecimal number when a digit follows
         let mut base = 10;
         if c == '0' {
-            if self.s.eat_if('b') {
-                base = 2;
-            } else if self.s.eat_if('x') {
-                base = 16;
+            let mut rest = self.s.after().chars();
+            match (rest.next(), rest.next()) {
+                (Some('b'), Some('0' | '1')) => {
+                    self.s.eat();
+                    base = 2;
+                }
+                (Some('x'), Some(c2)) if c2.is_ascii_hexdigit() => {
+                    self.s.eat();
+                    base = 16;
+                }
+                _ => {}
             }
         }
 
@@ -128,6 +136,11 @@ impl<'a> Lexer<'a> {
             16 => self.s.eat_while(char::is_ascii_hexdigit),
             _ => unreachable!(),
         };
+
+        // TableGen identifiers may begin with digits (e.g. `4foo`)
+        if base == 10 && c.is_ascii_digit() && self.s.at(is_identifier_start) {
+            return self.identifier(start);
+        }
 
         let number = self.s.get(start..self.s.cursor());
         if interpret_number(number).is_none() {
